@@ -118,3 +118,35 @@ Proof.
   rewrite E1 in Ev. rewrite E2 in Ew. inversion Ev; inversion Ew; subst. congruence.
 Qed.
 Print Assumptions value_injective.
+
+(* A constant is typed once.  In positions where the constant is synthesised before it meets a
+   parameter type (operand of a binary operator or comparison, augmented assignment, argument of
+   a generic parameter) its type is int; the later match against a parameter type on
+   ExprChecker.check's already-typed path (generated [check_typed]) never re-types it: it can
+   only succeed at int, a negative or any other constant is never turned into a nat, and the
+   HUGR constant is the signed IntVal with exactly that value. *)
+Theorem typed_once : forall (param : kind) (v : Z),
+  (forall k, check_operand param v = Ok k -> k = KInt /\ param = KInt /\ in_range KInt v) /\
+  (in_range KInt v -> check_operand KInt v = Ok KInt /\
+                      check_operand KNat v = Raise (TypeMismatchError KNat KInt) /\
+                      exists w p, compile_operand v = Ok (IntVal v w) /\
+                                  compile_operand_payload v = Ok (6, p) /\ denote KInt p = v) /\
+  (~ in_range KInt v -> exists b, check_operand param v = Raise (IntOverflowError true b (v <? 0))).
+Proof.
+  intros param v. split; [|split].
+  - intros k H. destruct (check_operand_ok _ _ _ H) as [A [B C]]. rewrite in_range_lit_eq. auto.
+  - intros R. apply in_range_lit_eq in R. split; [apply check_operand_int; exact R|].
+    split; [apply check_operand_nat; exact R|].
+    destruct (compile_operand_int v R) as [E1 E2]. eexists; eexists. split; [exact E1 | split; [exact E2|]].
+    cbn in R. unfold denote. rewrite p63, p64. destruct (v <? 0) eqn:L.
+    + destruct (18446744073709551616 + v <? 9223372036854775808) eqn:F; lia.
+    + destruct (v <? 9223372036854775808) eqn:F; lia.
+  - intros N. rewrite in_range_lit_eq in N. destruct (operand_overflow param v N) as [b [E _]]. exists b. exact E.
+Qed.
+Print Assumptions typed_once.
+
+Example typed_once_negative :
+  check_operand KNat (-1) = Raise (TypeMismatchError KNat KInt) /\
+  compile_operand_payload (-9223372036854775808) = Ok (6, 9223372036854775808) /\
+  compile_operand (-3) = Ok (IntVal (-3) 6).
+Proof. vm_compute. repeat split. Qed.
